@@ -515,15 +515,21 @@ Code path (`src/bin/commands/test.rs`, `src/bin/utils/file_parser.rs`, one docum
 3. `make_executor(shell, cram_compat)` = `BashScriptExecutor` for both (`cram_compat` is
    `parser_type == Cram || --cram-compat`).  `execute_all`:
    * `compile_testcase`: `set_consistent!` for detached, keep_crlf, output_stream,
-     skip_document_code, wait (`setConsistent`: the first set value is taken, every LATER test case has
+     skip_document_code, strip_ansi_escaping, wait (`setConsistent`: the first set value is taken, every LATER test case has
      to carry exactly it), then `compile_script`: a test case with a per-test timeout is an error.
-     Either error ends the run with exit status 1 (`Result.execError`).  `strip_ansi_escaping` is NOT
-     carried into the compiled configuration: an inline `strip_ansi_escaping: true` has no effect.
+     Either error ends the run with exit status 1 (`Result.execError`).  `strip_ansi_escaping` is
+     carried like the other keys (`set_consistent!(strip_ansi_escaping)`, behind skip_document_code):
+     the first set value is taken, a later test case with another value (or with none) is the error
+     "inconsistent configuration value for strip_ansi_escaping".
    * the ONE script (`Divider.compileScript`: per test the expression, an empty line,
      `__SCRUT_EXIT_CODE=$?`, `echo "<divider>"`, `1>&2 echo "<divider>"` unless combined, and
      `unset __SCRUT_EXIT_CODE`; the divider text ends in `$__SCRUT_EXIT_CODE`) is run by
-     `SubprocessRunner::run` with the compiled configuration: `render_output` (`Crlf.renderOutput`)
-     is applied to the WHOLE captured stream.
+     `SubprocessRunner::run` with the compiled configuration: `render_output` (`Crlf.renderOutput`:
+     `replace_crlf` unless the compiled `keep_crlf` is `true`, then `StripAnsi.strip` when the compiled
+     `strip_ansi_escaping` is `true`) is applied to the WHOLE captured stream, divider lines included,
+     BEFORE the stream is cut: an escape sequence that a command leaves open (an unterminated OSC, a
+     lone `ESC` at the end of its bytes) takes bytes of the following divider line with it; the
+     divider is then not found, and the count check ends in an execution error, not in a verdict.
      What the shell writes is derived from the given runs (`scriptStream`): for test `i` the bytes its
      command wrote, then the divider line with the command's exit code (`Divider.chunk`; the code
      is read by the assignment `__SCRUT_EXIT_CODE=$?`, a command of its own behind the expression,
@@ -627,6 +633,7 @@ structure Compiled where
   keepCrlf : Option Bool
   outputStream : Option Yaml.Stream
   skipCode : Option Int
+  stripAnsi : Option Bool
   deriving DecidableEq, Repr
 
 /-- `compile_testcase` (+ the timeout check of `compile_script`); `none` = `ExecutionError::failed`.
@@ -634,11 +641,12 @@ structure Compiled where
 of `with_environment` are those of the document). -/
 def compileTestcase (tests : List Test) : Option Compiled :=
   match setConsistent none (tests.map (·.cfg.detached)), setConsistent none (tests.map (·.cfg.keepCrlf)),
-        setConsistent none (tests.map (·.cfg.outputStream)), setConsistent none (tests.map (·.cfg.skipCode)) with
-  | some _, some k, some o, some s =>
+        setConsistent none (tests.map (·.cfg.outputStream)), setConsistent none (tests.map (·.cfg.skipCode)),
+        setConsistent none (tests.map (·.cfg.stripAnsi)) with
+  | some _, some k, some o, some s, some a =>
     -- "timeout per execution not supported in bash-script execution"
-    if tests.any (·.cfg.timeout.isSome) then none else some ⟨k, o, s⟩
-  | _, _, _, _ => none
+    if tests.any (·.cfg.timeout.isSome) then none else some ⟨k, o, s, a⟩
+  | _, _, _, _, _ => none
 
 /-- what the script writes to one stream: per test case the bytes of its command and the divider
 line (`code` = what `$__SCRUT_EXIT_CODE` expands to there), up to a command that leaves the shell -/
@@ -695,9 +703,9 @@ def execScriptBytes (tests : List Test) (tcs : List Exec.TC) (runs : List SRan) 
       else scriptStream (fun r => r.ran.stdout) (fun r => r.ran.code.toNat) 0 runs
     let rawErr := if combined then [] else scriptStream (fun r => r.ran.stderr) (fun r => r.ran.code.toNat) 0 runs
     let script := Exec.Status.code (scriptExit runs)
-    -- `SubprocessRunner::run`: `render_output` of the compiled test case (no `strip_ansi_escaping`)
-    match Crlf.renderOutput cfg.keepCrlf none (fun b => some b) rawOut,
-          Crlf.renderOutput cfg.keepCrlf none (fun b => some b) rawErr with
+    -- `SubprocessRunner::run`: `render_output` of the compiled test case on each WHOLE raw stream
+    match Crlf.renderOutput cfg.keepCrlf cfg.stripAnsi (fun b => some (StripAnsi.strip b)) rawOut,
+          Crlf.renderOutput cfg.keepCrlf cfg.stripAnsi (fun b => some (StripAnsi.strip b)) rawErr with
     | some stdout, some stderr =>
       match Divider.iterate modelSalt none stdout with
       | .error _ =>
